@@ -132,9 +132,31 @@ def corpus():
     return out
 
 
+def match_dict_case(rng):
+    """a failure at the VALUE position of a match-dict entry whose key matched: it must leave with its own class (the planted
+    class through Auto(...), TypeMatchError for a type mismatch, PathAccessError for a missing path), not as a generic
+    "key didn't match" MatchError"""
+    t = {'k': 'dict', 'od': False, 'id': 1, 'items': [['a', rng.choice([1, 'x', None])], ['b', {'k': 'dict', 'od': False, 'id': 2, 'items': [['c', 2]]}]]}
+    kind = rng.random()
+    key = rng.choice([['Str', 'a'], ['Type', 'str'], ['Required', ['Type', 'str']]])
+    rest = [[['Type', 'object'], ['Type', 'object']]]
+    if kind < 0.5:
+        cls = rng.choice(exccat.PLANTABLE)
+        val = ['Auto', ['Tuple', [['T', 'T', []], ['Fn', ['raise', cls]]]]]
+        planted = cls
+    elif kind < 0.75:
+        val, planted = ['Type', rng.choice(['dict', 'list'])], None               # TypeMatchError
+    else:
+        val, planted = ['Auto', ['Str', 'zz.missing']], None                      # PathAccessError
+    spec = ['Match', ['Dict', False, [[key, val]] + rest], None]
+    if rng.random() < 0.4:
+        spec = ['Tuple', [['T', 'T', []], spec]]
+    return {'target': t, 'spec': spec, 'planted': planted, 'depth': 2, 'opts': gen_opts(rng, planted or 'TypeMatchError')}
+
+
 def generate(rng, tier):
     n = 1800 if tier == 'quick' else 14000
-    out = []
+    out = [match_dict_case(rng) for _ in range(n // 12)]
     for _ in range(n):
         g = SpecGen(rng)
         t = g.target(rng.choice([2, 3, 3]))
